@@ -125,7 +125,8 @@ RUnlock ==  \* the searcher holds open handles from here on; the tracked metas a
   /\ rpc = "opening" /\ ropened = rlist
   /\ (IF ReaderLocks THEN lock' = "none" ELSE UNCHANGED lock)
   /\ rseen' = rlist /\ rpc' = "idle"
-  /\ UNCHANGED <<disk, managed, inv, meta, regs, next, wpc, wseg, mpc, msrc, mseg, gpc, todel, rlist, ropened, rfail, dirty>>
+  /\ dirty' = (dirty \/ ~RemoteReader)    \* files the reload kept alive may now be garbage
+  /\ UNCHANGED <<disk, managed, inv, meta, regs, next, wpc, wseg, mpc, msrc, mseg, gpc, todel, rlist, ropened, rfail>>
 
 Next == WNew \/ WRegister \/ WCreate \/ WFinish \/ Commit \/ Rollback \/ MStart \/ MRegister \/ MCreate \/ MEnd
         \/ GLock \/ GList \/ GDel \/ RLock \/ RMeta \/ ROpen \/ RUnlock
